@@ -20,9 +20,7 @@ BASE_URL = real.BASE_URL
 # Crashes of the unchanged tree that are listed in known_findings.txt: (exception class, innermost function).
 # (The four that were listed — RecursionError in resolve_var, TypeError in __missing__, IndexError in the src and
 # system descriptors — were repaired by 2bffab3, 582f36b, be7a07b, d71ddd0: any such crash is a violation again.)
-KNOWN_CRASHES = {
-    ('ZeroDivisionError', 'get_intrinsic_size'): 'image-resolution-zero-division',
-}
+KNOWN_CRASHES = {}
 FUEL = 120
 
 
@@ -1114,6 +1112,247 @@ def judge_length_declaration(name, css):
     return None
 
 
+# ------------------------------------------- computed values: equal absolute lengths in any unit, at any depth
+
+NESTED_LENGTH_TEMPLATES = [
+    '10px', '10px 20px', '10px 20px 30px 40px', 'repeat(2, 10px)', 'repeat(3, 10px 20px)', 'repeat(2, minmax(10px, 1fr))',
+    'repeat(2, minmax(10px, 20px)) 30px', '[a] 10px [b] repeat(2, 20px [c]) 30px', 'repeat(2, fit-content(10px))',
+    'minmax(10px, 20px)', 'minmax(10px, 1fr) 20px', 'fit-content(10px)', 'fit-content(10px) 20px', '10px minmax(20px, auto)',
+    'repeat(auto-fill, 10px)', 'repeat(auto-fit, minmax(10px, 1fr))', 'translate(10px, 20px)', 'translate(10px)',
+    'translatex(10px) translatey(20px)', 'rotate(3deg) translate(10px, 20px)', 'rect(10px, 20px, 30px, 40px)',
+    '10px / 20px', '10px 20px / 30px', 'left 10px top 20px', '10px 50%', 'center / 10px 20px', '10px auto',
+    'auto 10px', '10px solid', 'circle at 10px 20px', 'radial-gradient(circle at 10px 20px, red, blue)',
+    'radial-gradient(10px 20px at center, red, blue)', 'linear-gradient(red 10px, blue 20px)',
+    'repeating-linear-gradient(red, blue 10px)', '1 10px', '10px 2', 'a 10px', '"x" 10px', 'bold 10px serif',
+    '10px/20px serif', '2 10px', '10px dotted red', 'red 10px 20px', '10px 20px red', 'a4 landscape', '10px landscape',
+]
+UNIT_SPELLINGS_EXACT = [('in', Fraction(1, 96)), ('pt', Fraction(72, 96)), ('pc', Fraction(6, 96)),
+                        ('cm', Fraction(254, 9600)), ('mm', Fraction(254, 960)), ('q', Fraction(1016, 960))]
+PX_VALUES = [96, 48, 192, 144]       # 1in, 0.5in, 2in, 1.5in: every spelling below is an exact float
+
+
+def px_literals(text):
+    import re
+    return list(re.finditer(r'(?<![\w.#-])(-?\d+(?:\.\d+)?)px\b', text))
+
+
+def respell(text, unit, per_px):
+    """`text` with its k-th px literal replaced by PX_VALUES[k % 4] px (spelling A) and by the same length in `unit`
+    (spelling B); None when a spelling is not an exact float."""
+    from weasyprint.css.utils import LENGTHS_TO_PIXELS
+    out_a, out_b, last = [], [], 0
+    for k, m in enumerate(px_literals(text)):
+        px = PX_VALUES[k % len(PX_VALUES)]
+        value = px * per_px
+        if float(value) * LENGTHS_TO_PIXELS[unit] != float(px):
+            return None
+        out_a.append(text[last:m.start()] + f'{px}px')
+        out_b.append(text[last:m.start()] + f'{float(value):.10g}{unit}')
+        last = m.end()
+    return ''.join(out_a) + text[last:], ''.join(out_b) + text[last:]
+
+
+UNCOMPUTED_GRADIENT_PROPERTIES = ('border-image-source', 'mask-border-source')
+COMPUTED_PRE = 'border-style: solid; outline-style: solid; column-rule-style: solid; position: relative; display: block'
+
+
+@__import__('functools').lru_cache(maxsize=None)
+def length_templates(name):
+    """Value texts with px lengths (at any depth) that the real validator of `name` accepts."""
+    texts = [a for a in G.accepted_singles(name) if px_literals(a)] + NESTED_LENGTH_TEMPLATES
+    seen, out = set(), []
+    for t in texts:
+        if t not in seen and 'var(' not in t and 'attr(' not in t and 'calc(' not in t and 'e3px' not in t \
+                and G.call_validator(name, t)[0] == 'ok':
+            seen.add(t)
+            out.append(t)
+    return tuple(out)
+
+
+def computed_of(name, text):
+    key = name.replace('-', '_')
+    _, child = style_pair('font-size: 16px', f'{COMPUTED_PRE}; {name}: {text}')
+    return style_value(child, key)[0]
+
+
+def sec_computed_units(run):
+    from weasyprint.css.properties import INITIAL_VALUES
+    _, _, _, _, properties = real.mods()
+    sec = run.section('computed-units', 'real ComputedStyle on every longhand x every value text of its own grammar '
+                      'that contains px lengths at any depth (single tokens, tuples, repeat() / minmax() / '
+                      'fit-content() tracks, transform functions, gradients, positions, rect()): the computed value of the '
+                      'text respelled in in / pt / pc / cm / mm / q equals the computed value of the px spelling (echo), '
+                      'and both spellings are accepted alike; non-trivial = the length sits inside a function')
+    count, known = 0, 0
+    for name in sorted(properties.PROPERTIES):
+        key = name.replace('-', '_')
+        if key not in INITIAL_VALUES or key in PENDING_SKIP:
+            continue
+        templates = length_templates(name)
+        for text in templates:
+            if name in UNCOMPUTED_GRADIENT_PROPERTIES and 'gradient(' in text:
+                known += 1        # known finding border-image-gradient-lengths-not-computed
+                continue
+            units = UNIT_SPELLINGS_EXACT if run.thorough else run.rng.sample(UNIT_SPELLINGS_EXACT, 2)
+            for unit, per_px in units:
+                pair = respell(text, unit, per_px)
+                if pair is None:
+                    continue
+                a, b = pair
+                if G.call_validator(name, a)[0] != 'ok':
+                    continue
+                want = computed_of(name, a)
+                got = computed_of(name, b) if G.call_validator(name, b)[0] == 'ok' else 'dropped'
+                count += 1
+                sec.add(sx.line('echo', real.digest(want)), real.digest(got),
+                        meta={'name': name, 'px': a, 'other': b, 'unit': unit},
+                        nontrivial='(' in text, tags=[f'unit:{unit}', 'nested' if '(' in text else 'flat'])
+    run.extra['computed_units_known_finding_skipped'] = known
+    run.extra['computed_units_properties'] = len({m['name'] for s in run.sections if s.name == 'computed-units'
+                                                  for m in s.meta})
+
+
+# -------------------------------------------------------------- grid track lists: the computer, by direct call
+
+TRACK_LENGTHS = ['96px', '1in', '72pt', '6pc', '2.54cm', '25.4mm', '101.6q', '48px', '0.5in', '36pt', '3pc', '2em',
+                 '1.5em', '1rem', '4ex', '2ch', '50%', '0', '0px', '10px']
+
+
+def track_wire(value, q=Fraction):
+    """A validated / computed track-list element as the wire form of `Wp.Tracks07.Track`.  `q`: how a float becomes a
+    rational — specified values are sent as the decimal that was written (2.54 is 254/100, not its binary
+    neighbour), computed ones as the exact binary value."""
+    from weasyprint.css.properties import Dimension
+
+    def breadth(b):
+        if isinstance(b, str):
+            return ['kw', enc(b)]
+        if isinstance(b, Dimension):
+            return ['dim', q(b.value), enc(b.unit) if b.unit is not None else 'none']
+        raise ValueError(b)
+    if isinstance(value, str) or isinstance(value, Dimension):
+        return ['breadth', breadth(value)]
+    if isinstance(value, (tuple, list)) and value and value[0] == 'minmax()':
+        return ['minmax', breadth(value[1]), breadth(value[2])]
+    if isinstance(value, (tuple, list)) and value and value[0] == 'fit-content()':
+        return ['fit', q(value[1].value), enc(value[1].unit) if value[1].unit is not None else 'none']
+    if isinstance(value, (tuple, list)) and value and value[0] == 'repeat()':
+        return ['rep', enc(str(value[1])), [track_wire(v, q) for v in value[2]]]
+    if isinstance(value, (tuple, list)) and all(isinstance(v, str) for v in value):
+        return ['names', *[enc(v) for v in value]]
+    raise ValueError(value)
+
+
+def decimal(x):
+    return Fraction(repr(float(x)))
+
+
+def track_text(rng, depth):
+    """A track list text: names / sizes alternating, nested repeat()."""
+    def breadth():
+        return rng.choice(TRACK_LENGTHS + ['1fr', '2fr', 'auto', 'min-content', 'max-content'])
+
+    def size():
+        r = rng.random()
+        if r < 0.5:
+            return breadth()
+        if r < 0.7:
+            return f'minmax({rng.choice(TRACK_LENGTHS + ["auto", "min-content"])}, {breadth()})'
+        if r < 0.82:
+            return f'fit-content({rng.choice(TRACK_LENGTHS)})'
+        if depth > 0:
+            inner = ' '.join(track_text(rng, depth - 1) for _ in range(rng.choice([1, 1, 2])))
+            return f'repeat({rng.choice(["2", "3", "1", "auto-fill", "auto-fit"])}, {inner})'
+        return breadth()
+    parts = []
+    for _ in range(rng.choice([1, 1, 2, 3])):
+        if rng.random() < 0.3:
+            parts.append(rng.choice(['[a]', '[a b]', '[]']))
+        parts.append(size())
+    if rng.random() < 0.2:
+        parts.append('[z]')
+    return ' '.join(parts)
+
+
+def sec_tracks(run):
+    from weasyprint.css import computed_values
+    _, _, _, _, properties = real.mods()
+    sec = run.section('track-size', 'real computed_values.grid_template / grid_auto by direct call on the track lists '
+                      'the real validators build from generated texts (line names, lengths in every absolute and '
+                      'font-relative unit, %, fr, keywords, minmax(), fit-content(), repeat() nested up to depth 2, '
+                      'none, subgrid) vs the model of _track_size and its recursion; non-trivial = a repeat() holding '
+                      'a length that is not in px')
+    for _ in range(run.n(500, 8000)):
+        auto = run.rng.random() < 0.25
+        name = run.rng.choice(['grid-auto-columns', 'grid-auto-rows'] if auto else
+                              ['grid-template-columns', 'grid-template-rows'])
+        r = run.rng.random()
+        text = 'none' if (r < 0.03 and not auto) else 'subgrid [a] [b]' if (r < 0.06 and not auto) else \
+            track_text(run.rng, 0 if auto else 2)
+        tokens = tokens_of(text)
+        try:
+            values = properties.PROPERTIES[name](tokens)
+        except Exception:  # noqa: BLE001 - the funnel section reports crashing validators
+            continue
+        if values is None:
+            continue
+        fs, rfs = Fraction(run.rng.choice([16, 10, 20])), Fraction(run.rng.choice([16, 12]))
+        ex, ch = Fraction(run.rng.choice([1, 2]), 4), Fraction(1, 2)
+        style = font_style_for(fs, rfs, ex, ch)
+        try:
+            if auto:
+                out = computed_values.grid_auto(style, name, values)
+                impl = sx.line(*[track_wire(v) for v in out])
+                impl = f'({impl})' if out else '()'
+                line = sx.line('track-auto', fs, rfs, ex, ch, [track_wire(v, decimal) for v in values])
+            else:
+                out = computed_values.grid_template(style, name, values)
+                if out == 'none':
+                    impl, tpl = 'none', 'none'
+                elif out[0] == 'subgrid':
+                    impl, tpl = 'subgrid', 'subgrid'
+                else:
+                    impl = '(' + sx.line('tracks', *[track_wire(v) for v in out]) + ')'
+                    tpl = ['tracks', *[track_wire(v, decimal) for v in values]]
+                line = sx.line('track-template', fs, rfs, ex, ch, tpl)
+        except Exception as exc:  # noqa: BLE001
+            impl = real.fail_atom(exc)
+            line = sx.line('track-template', fs, rfs, ex, ch, 'none')
+        import re
+        nested = bool(re.search(r'repeat\([^)]*\d(in|pt|pc|cm|mm|q|em|rem|ex|ch)\b', text))
+        sec.add(line, impl, meta={'name': name, 'css': text, 'font_size': str(fs)}, nontrivial=nested,
+                tags=['auto' if auto else 'template', *(['repeat-non-px'] if nested else []),
+                      *(['repeat-in-repeat'] if text.count('repeat(') > 1 else [])])
+
+
+def judge_tracks(meta):
+    """A computed track list holds no absolute or font-relative unit any more (layout only takes px, %, fr), and the
+    same text with its lengths respelled in px computes to the same list."""
+    name, text = meta['name'], meta['css']
+    got = computed_of(name, text)
+    import re
+    left = re.findall(r"Dimension\([-0-9.e]+,'(in|pt|pc|cm|mm|q|Q|em|rem|ex|ch)'\)", got)
+    if left:
+        return (f'`{name}: {text}` computes to {got[:300]}: the unit(s) {sorted(set(left))} reach layout unconverted '
+                f'(equal lengths in different units are not interchangeable; layout asserts px or %)')
+    return None
+
+
+def judge_computed_units(meta):
+    name, a, b = meta['name'], meta['px'], meta['other']
+    if name in UNCOMPUTED_GRADIENT_PROPERTIES and 'gradient(' in a:
+        return None      # known finding border-image-gradient-lengths-not-computed
+    if G.call_validator(name, a)[0] != 'ok':
+        return None
+    if G.call_validator(name, b)[0] != 'ok':
+        return f'`{name}: {a}` is accepted but the same lengths written `{name}: {b}` are dropped'
+    want, got = computed_of(name, a), computed_of(name, b)
+    if want != got:
+        return (f'`{name}: {b}` computes to {got[:300]}, the same lengths in px `{name}: {a}` compute to {want[:300]}: '
+                f'equal lengths written in different absolute units are not interchangeable')
+    return None
+
+
 # ------------------------------------------------------------- ComputedStyle.__missing__: pending values
 
 PENDING_CASES = ('absent', 'inherit', 'initial', 'value', 'pending-valid', 'pending-invalid', 'pending-inherit',
@@ -1661,8 +1900,149 @@ def sec_numeric(run):
             ' exact' if Fraction(got).limit_denominator(10 ** 6) == Fraction(got) else ' near')
         sec.add(sx.line('get-resolution', ltok_wire(toks[0]), Fraction(got) if got is not None else 0), impl,
                 meta={'name': 'image-resolution', 'css': text}, nontrivial=got is not None, tags=['resolution'])
+        try:
+            kept = properties.PROPERTIES['image-resolution'](toks)
+            impl = 'invalid' if kept is None else 'ok ' + (
+                'exact' if Fraction(kept).limit_denominator(10 ** 6) == Fraction(kept) else 'near')
+        except Exception as exc:  # noqa: BLE001
+            kept, impl = None, real.fail_atom(exc)
+        sec.add(sx.line('image-resolution', ltok_wire(toks[0]), Fraction(kept) if kept is not None else 0), impl,
+                meta={'name': 'image-resolution', 'css': text}, nontrivial=kept is not None,
+                tags=['image-resolution:' + impl.split(' ')[0]])
     run.extra['numeric_validators'] = {'properties_mirrored': [n for n, _, _ in table],
                                        'not_mirrored': [f for f, _ in skipped]}
+
+
+# Independent reference (the CSS specifications): for the properties whose single-token value may be a <length>,
+# whether a negative length is in the grammar and whether a <percentage> is.  (negative_ok, percentage_ok)
+CSS_LENGTH_SPEC = {
+    **{n: (False, False) for n in ('border-top-width', 'border-right-width', 'border-bottom-width', 'border-left-width',
+                                   'column-rule-width', 'outline-width', 'border-spacing', 'column-width', 'tab-size',
+                                   'border-image-outset', 'mask-border-outset')},
+    **{n: (False, True) for n in ('border-top-left-radius', 'border-top-right-radius', 'border-bottom-right-radius',
+                                  'border-bottom-left-radius', 'column-gap', 'row-gap', 'flex-basis', 'font-size',
+                                  'width', 'height', 'min-width', 'min-height', 'max-width', 'max-height',
+                                  'padding-top', 'padding-right', 'padding-bottom', 'padding-left',
+                                  'hyphenate-limit-zone', 'line-height', 'background-size', 'border-image-width',
+                                  'mask-border-width', 'grid-template-columns', 'grid-template-rows',
+                                  'grid-auto-columns', 'grid-auto-rows')},
+    **{n: (True, False) for n in ('letter-spacing', 'word-spacing', 'outline-offset', 'bleed-top', 'bleed-right',
+                                  'bleed-bottom', 'bleed-left')},
+    **{n: (True, True) for n in ('top', 'right', 'bottom', 'left', 'margin-top', 'margin-right', 'margin-bottom',
+                                 'margin-left', 'text-indent', 'vertical-align', 'text-underline-offset',
+                                 'background-position', 'object-position', 'transform-origin')},
+}
+LENGTH_PROBES = ['2px', '-2px', '0px', '1.5em', '-1.5em', '1in', '-3pt', '2rem', '50%', '-50%', '0%', '150%', '0', '2xx',
+                 '-2xx', '2deg']
+
+
+def length_probe_bits(name, texts):
+    import tinycss2
+    _, _, validation, _, _ = real.mods()
+    bits = []
+    for text in texts:
+        try:
+            out = list(validation.preprocess_declarations(
+                BASE_URL, tinycss2.parse_blocks_contents(f'{name}: {text}')))
+            bits.append('1' if out else '0')
+        except Exception:  # noqa: BLE001
+            bits.append('E')
+    return ''.join(bits)
+
+
+def sec_length_flags(run):
+    _, utils, _, _, properties = real.mods()
+    sec = run.section('length-flags', 'every property whose value may be a single <length> (61 at HEAD, table of CSS '
+                      'grammars: negative allowed? percentage allowed?): the real funnel on single dimension / percentage '
+                      'tokens of both signs, zero, foreign units vs the reference `get_length` of the model called with '
+                      'the flags of the CSS grammar; and the "one or two lengths" validators (border-spacing, the four '
+                      'radii; flags regenerated by AST) on 0..3 tokens vs their model; non-trivial = a token is accepted')
+    for name in sorted(CSS_LENGTH_SPEC):
+        if name not in properties.PROPERTIES:
+            continue
+        negative, percentage = CSS_LENGTH_SPEC[name]
+        texts = list(LENGTH_PROBES)
+        for _ in range(run.n(6, 60)):
+            v = run.rng.choice(['-', '']) + run.rng.choice(['0', '1', '2.5', '12', '0.25', '100'])
+            texts.append(v + run.rng.choice(['px', 'em', '%', 'pt', 'cm', 'mm', 'q', 'pc', 'in', 'ex', 'ch', 'rem']))
+        toks = [tokens_of(t)[0] for t in texts]
+        impl = length_probe_bits(name, texts)
+        sec.add(sx.line('length-flags', negative, percentage, [ltok_wire(t) for t in toks]), impl,
+                meta={'name': name, 'texts': texts}, nontrivial='1' in impl,
+                tags=[f'neg:{negative}', f'pct:{percentage}'])
+    pool = ['2px', '0', '4px', '1em', '50%', '0%', '-1px', '-5%', '2', 'auto', '3pt', '10%', '1.5in']
+    for name, _, _, _ in c07_numeric.ast_length_list_validators():
+        for _ in range(run.n(80, 1500)):
+            atoms = [run.rng.choice(pool) for _ in range(run.rng.choice([1, 1, 2, 2, 2, 3, 0]))]
+            tokens = tokens_of(' '.join(atoms))
+            if any(t.type not in ('number', 'dimension', 'percentage', 'ident') for t in tokens):
+                continue
+            try:
+                got = properties.PROPERTIES[name](tokens)
+                impl = 'invalid' if got is None else 'ok ' + ' | '.join(
+                    f'dim {sx.atom(Fraction(d.value))} {enc(d.unit) if d.unit is not None else "none"}' for d in got)
+            except Exception as exc:  # noqa: BLE001
+                impl = real.fail_atom(exc)
+            sec.add(sx.line('length-list', enc(name), [ltok_wire(t) for t in tokens]), impl,
+                    meta={'name': name, 'css': ' '.join(atoms), 'list': True}, nontrivial=impl.startswith('ok'),
+                    tags=[f'list:{impl.split(" ")[0]}', f'list-n{len(tokens)}'])
+
+
+def judge_length_flags(meta):
+    """A length outside the grammar of the property is an invalid declaration and must be dropped; one inside it
+    is supported; a kept length never aborts the rendering of a document that uses it."""
+    name = meta['name']
+    if name not in CSS_LENGTH_SPEC:
+        return None
+    negative, percentage = CSS_LENGTH_SPEC[name]
+    texts = meta['texts'] if 'texts' in meta else LENGTH_PROBES + [meta['css']]
+    for text in texts:
+        toks = tokens_of(text)
+        bits = length_probe_bits(name, [text])
+        if len(toks) != 1:
+            if name == 'border-spacing' and bits == '1' and any(t.type == 'percentage' for t in toks):
+                return (f'`{name}: {text}` is accepted although a <percentage> is not in the grammar of {name} '
+                        f'(CSS 2.1 §17.6.1: <length> <length>?): the declaration is invalid and must be ignored')
+            continue
+        tok = toks[0]
+        if bits == 'E':
+            return f'`{name}: {text}` makes preprocess_declarations raise'
+        if tok.type == 'percentage' and not percentage and bits == '1':
+            return (f'`{name}: {text}` is accepted although a <percentage> is not in the grammar of {name}: the '
+                    f'declaration is invalid and must be ignored (it overrides earlier valid values and reaches layout '
+                    f'as a percentage)')
+        if tok.type in ('percentage', 'dimension') and tok.value < 0 and not negative and bits == '1':
+            return f'`{name}: {text}` is accepted although negative values are not in the grammar of {name}'
+        from weasyprint.css.utils import LENGTH_UNITS
+        in_grammar = (tok.type == 'dimension' and tok.unit in LENGTH_UNITS and (negative or tok.value >= 0)) or \
+            (tok.type == 'percentage' and percentage and (negative or tok.value >= 0))
+        if in_grammar and bits == '0':
+            return f'`{name}: {text}` is dropped although it is in the grammar of {name}'
+        if tok.type == 'dimension' and tok.unit not in LENGTH_UNITS and tok.lower_unit not in LENGTH_UNITS \
+                and bits == '1' and name not in ('grid-template-columns', 'grid-template-rows', 'grid-auto-columns',
+                                                 'grid-auto-rows', 'transform-origin'):
+            return f'`{name}: {text}` is accepted although `{tok.unit}` is not a length unit'
+    return None
+
+
+def judge_image_resolution(css):
+    """css-images-3 §5.1: the <resolution> of image-resolution must be positive; a kept declaration never aborts the
+    rendering of a raster image."""
+    import tinycss2
+    _, utils, validation, _, _ = real.mods()
+    toks = tokens_of(css)
+    try:
+        out = list(validation.preprocess_declarations(
+            BASE_URL, tinycss2.parse_blocks_contents(f'image-resolution: {css}')))
+    except Exception as exc:  # noqa: BLE001
+        return f'`image-resolution: {css}` makes preprocess_declarations raise {type(exc).__name__}'
+    if out and len(toks) == 1 and toks[0].type == 'dimension' and toks[0].value <= 0:
+        return (f'`image-resolution: {css}` is accepted as {real.canon(out[0][1])}: a resolution that is not positive is '
+                f'invalid and must be ignored (with a raster <img> zero raises ZeroDivisionError in get_intrinsic_size)')
+    if not out and len(toks) == 1 and toks[0].type == 'dimension' and toks[0].value > 0 \
+            and toks[0].unit in ('dppx', 'dpi', 'dpcm') and math.isfinite(toks[0].value):
+        return f'`image-resolution: {css}` is dropped although it is a positive resolution'
+    return None
 
 
 def judge_numeric(name, css):
@@ -1673,7 +2053,7 @@ def judge_numeric(name, css):
     from weasyprint.css.properties import Dimension
     _, _, validation, _, _ = real.mods()
     if name == 'image-resolution':
-        return None      # known finding image-resolution-zero-division (non-positive resolutions are accepted)
+        return judge_image_resolution(css)
     if name not in CSS_NUMERIC_SPEC:
         return None
     kind, lo, keywords, ref = CSS_NUMERIC_SPEC[name]
@@ -1690,8 +2070,6 @@ def judge_numeric(name, css):
         return None
     tok = tokens[0]
     if accepted and tok.type == 'number':
-        if name in ('flex-grow', 'flex-shrink') and tok.value < 0:
-            return None      # known finding flex-negative-factor-accepted
         if kind == 'integer' and tok.int_value is None:
             return f'`{name}: {css}` is accepted as {real.canon(value)}: {name} takes an integer ({ref})'
         if lo is not None and tok.value < lo:
@@ -2670,7 +3048,7 @@ def replay_image_resolution_zero():
         docs.render(f'<style>img{{image-resolution: 0dppx}}</style><img src="{uri}">')
     except ZeroDivisionError:
         return True
-    return False
+    return bool(real_funnel_pairs('image-resolution: 0dppx')) or bool(real_funnel_pairs('image-resolution: -1dppx'))
 
 
 def replay_css_wide_as_ident():
@@ -2678,11 +3056,17 @@ def replay_css_wide_as_ident():
     return bool(got)
 
 
+def replay_border_image_gradient_lengths():
+    return render_raises('p{border:10px solid;border-image-source:linear-gradient(red 1in, blue 2in);'
+                         'border-image-slice:1}', 'AssertionError') or \
+        computed_of('border-image-source', 'linear-gradient(red 72pt, blue 96px)') != \
+        computed_of('border-image-source', 'linear-gradient(red 96px, blue 96px)')
+
+
 FINDING_REPLAYS = {
+    'border-image-gradient-lengths-not-computed': replay_border_image_gradient_lengths,
     'css-wide-keyword-as-ident': replay_css_wide_as_ident,
-    'image-resolution-zero-division': replay_image_resolution_zero,
     'var-fallback-commas-dropped': replay_var_fallback_commas,
-    'flex-negative-factor-accepted': replay_flex_negative_factor,
 }
 
 
@@ -2714,6 +3098,11 @@ def replay_var_cycle_in_process():
 # is a disagreement of the `regressions` section, judged and reported as a VIOLATION (a fixed entry suppresses
 # nothing).  id -> (replay: True when the defect is there, commit, what fails)
 REGRESSIONS = {
+    'flex-negative-factor-accepted': (lambda: replay_flex_negative_factor(), 'c151619',
+                                      'flex-grow: 2; flex-grow: -1 keeps the negative factor (also flex-shrink: -0.5)'),
+    'image-resolution-zero-division': (lambda: replay_image_resolution_zero(), 'd011d54',
+                                       'img{image-resolution: 0dppx} with a raster <img> raises ZeroDivisionError, or '
+                                       'a non-positive resolution is kept'),
     'var-self-cycle-recursion': (replay_var_cycle_in_process, '2bffab3',
                                  'p{--a:var(--a);width:var(--a)} and longer cycles: RecursionError in resolve_var, or '
                                  'the cyclic declaration changes the rendering'),
@@ -3239,7 +3628,7 @@ def reference_substitution(tokens, env, depth):
 class C07(PropCheck):
     id = 'C07'
     extractors = (c07_tables.generate, c07_numeric.generate)
-    modules = ('WpModel.Props.C07', 'WpModel.Props.C07Expanders', 'WpModel.Props.C07Var', 'WpModel.Props.C07Sheet',
+    modules = ('WpModel.Props.C07', 'WpModel.Props.C07Tracks', 'WpModel.Props.C07Expanders', 'WpModel.Props.C07Var', 'WpModel.Props.C07Sheet',
                'WpModel.Props.C07Keywords', 'WpModel.Props.C07Descriptors', 'WpModel.Props.C07Numeric',
                'WpModel.Witness.C07')
     trusted_base = (
@@ -3286,6 +3675,10 @@ class C07(PropCheck):
         'get-length': ['number', 'dimension', 'percentage', 'accepted', 'rejected'],
         'length-pipeline': ['rejected', 'dim'],
         'computed-pending': list(PENDING_CASES) + ['inherited', 'not-inherited', 'specified', 'parent', 'initial'],
+        'length-flags': ['neg:True', 'neg:False', 'pct:True', 'pct:False', 'list:ok', 'list:invalid', 'list-n0', 'list-n1',
+                         'list-n2', 'list-n3'],
+        'track-size': ['auto', 'template', 'repeat-non-px'],
+        'computed-units': ['nested', 'flat'] + [f'unit:{u}' for u, _ in UNIT_SPELLINGS_EXACT],
         'pending-solve': ['valid-after-invalid', 'shorthand', 'longhand', 'warned'],
         'sheet-funnel': ['probe-imported', 'probe-ignored', 'rule:no-content', 'rule:font-face', 'rule:other-at',
                          'rule:counter-style-ok', 'rule:counter-style-bad-name', 'rule:style-bad-selector',
@@ -3294,7 +3687,8 @@ class C07(PropCheck):
                          'rule:media-match', 'rule:media-no-match', 'rule:page-bad-selector', 'rule:page-ok',
                          'rule:page-margin-rule'],
         'keyword-validators': ['single', 'comma-list', 'ok', 'invalid'],
-        'numeric-validators': ['int', 'kw', 'num', 'dim', 'invalid', 'tokens1', 'tokens2', 'resolution'],
+        'numeric-validators': ['int', 'kw', 'num', 'dim', 'invalid', 'tokens1', 'tokens2', 'resolution',
+                               'image-resolution:ok', 'image-resolution:invalid'],
         'descriptor-funnel': ['font-face', 'counter-style', 'kept', 'all-dropped', 'font-variant:ok',
                               'font-variant:invalid'],
         'var': ['acyclic-env', 'cyclic-env', 'check-var', 'parse-function', 'none', 'ok', 'cyclic-resolved'],
@@ -3321,10 +3715,13 @@ class C07(PropCheck):
         sec_vns(run)
         sec_lengths(run)
         sec_pending(run)
+        sec_computed_units(run)
+        sec_tracks(run)
         sec_pending_solve(run)
         sec_sheet(run)
         sec_keywords(run)
         sec_numeric(run)
+        sec_length_flags(run)
         sec_descriptors(run)
         sec_var(run)
         sec_docs(run)
@@ -3358,6 +3755,8 @@ class C07(PropCheck):
             return judge_units()
         if section == 'numeric-validators':
             return judge_numeric(meta['name'], meta['css'])
+        if section == 'length-flags':
+            return judge_length_flags(meta)
         if section == 'descriptor-funnel' and 'rule' in meta:
             return judge_descriptors(meta)
         if section == 'sheet-funnel':
@@ -3370,6 +3769,10 @@ class C07(PropCheck):
             return judge_pending(meta)
         if section == 'pending-solve':
             return judge_pending_solve(meta)
+        if section == 'computed-units':
+            return judge_computed_units(meta)
+        if section == 'track-size':
+            return judge_tracks(meta)
         if section == 'validate-non-shorthand':
             _, _, _, expanders, properties = real.mods()
             name = meta.get('name')
@@ -3532,6 +3935,17 @@ def search(run, failures):
     if add(what, {'units': True}, 'units'):
         return found
     # numeric ranges against the CSS grammar (a broken range theorem of Props/C07Numeric has its input here)
+    for name in sorted(CSS_LENGTH_SPEC):
+        run.search_stats['evaluations'] += 1
+        extra = ['2px 50%', '10% 2px', '0% 0'] if name == 'border-spacing' else []
+        if add(judge_length_flags({'name': name, 'texts': LENGTH_PROBES + extra}),
+               {'section': 'length-flags', 'meta': {'name': name, 'texts': LENGTH_PROBES + extra}}, f'length:{name}'):
+            return found
+    for text in ['0dppx', '-1dppx', '0dpi', '-96dpi', '1dppx', '96dpi', '118dpcm', '2dppx']:
+        run.search_stats['evaluations'] += 1
+        if add(judge_image_resolution(text), {'section': 'numeric-validators',
+                                              'meta': {'name': 'image-resolution', 'css': text}}, 'image-resolution'):
+            return found
     for name in CSS_NUMERIC_SPEC:
         for text in NUMERIC_TEXTS:
             run.search_stats['evaluations'] += 1
@@ -3607,7 +4021,8 @@ MANIFEST = {
                  'state machine, the value selection of ComputedStyle.__missing__, get_length / length with the unit '
                  'table (exact rationals regenerated from css/utils.py), get_resolution, the keyword-only validators '
                  '(table regenerated by AST), the numeric single-token validators (clause tables with every bound '
-                 'regenerated by AST) and var() resolution with its cycle guard; registries (EXPANDERS, generic_expander '
+                 'regenerated by AST), the one-or-two-lengths validators, the grid track-list computers with their '
+                 'recursion into repeat(), and var() resolution with its cycle guard; registries (EXPANDERS, generic_expander '
                  'names, PROPERTIES, DESCRIPTORS, INHERITED, NOT_PRINT_MEDIA, prefixes) regenerated from the source and '
                  'the runtime each run; executable correspondence with the real functions on every registered property, '
                  'shorthand and descriptor, on real Pending objects solved repeatedly, plus rendered metamorphic '
@@ -3633,7 +4048,11 @@ MANIFEST = {
             'resolve_var terminates on every finite set of custom properties, cyclic or not (cycle guard), a property '
             'met again yields its fallback; on acyclic properties it returns the textual substitution for well-formed '
             'var() with comma-free fallbacks (var_subst_total); a shorthand with var() gives each longhand exactly what '
-            'the expansion of the substituted shorthand, consumed as a whole, gives it (all or nothing).',
+            'the expansion of the substituted shorthand, consumed as a whole, gives it (all or nothing); border-spacing '
+            'takes one or two non-negative lengths and no percentage, the corner radii take percentages (flags '
+            'regenerated by AST); flex-grow / flex-shrink >= 0; a kept image-resolution is positive, so the intrinsic '
+            'size of a raster image is always defined; a computed grid track list holds px, %, fr only, at any depth of '
+            'minmax() / fit-content() / repeat() (track_size_all_px), equal absolute lengths are the same breadth.',
     'note': 'Trusted: Lean kernel, py/extract/c07_tables.py and c07_numeric.py, the harness abstraction of tokens to '
             'the answers of the real single-token / slice validators. Partial: of the 133 validator functions only the 50 '
             'keyword-only properties, the 12 numeric single-token properties, get_length, get_resolution and '
@@ -3641,9 +4060,10 @@ MANIFEST = {
             'blocks and inside functions with empty arguments is invisible to the code and the model alike; on cyclic '
             'custom properties the code substitutes up to the repeated property (CSS makes the whole cycle invalid at '
             'computed-value time) — the model mirrors the code; CSS nesting (style rules inside style rules) is outside '
-            'the rule-level model. Known findings: commas dropped from var() fallbacks, negative flex-grow / flex-shrink '
-            'accepted, image-resolution: 0dppx accepted (ZeroDivisionError with a raster image). Repaired since round '
-            '2 (replayed as regressions): var() self-cycle, inherit out of a var() on the root, a shorthand invalid '
+            'the rule-level model. Known findings: commas dropped from var() fallbacks, a CSS-wide keyword read as a '
+            'custom ident inside a multi-token value, gradient lengths of border-image-source / mask-border-source not '
+            'computed (AssertionError in layout). Repaired since round 2 (replayed as regressions): negative '
+            'flex-grow / flex-shrink, image-resolution <= 0, var() self-cycle, inherit out of a var() on the root, a shorthand invalid '
             'after substitution applied in part, flex: 0.0 read as a basis, @font-face src: format() and '
             '@counter-style system: (empty) IndexError.',
 }
